@@ -149,33 +149,51 @@ def _validated_path(ctx, prog):
         ctx.ob("validated-path:slices", ok, "primary = paths[0..primary_length], secondary = paths[primary_length..primary_length+secondary_length]: %s / %s" % (ep, es), where=p.where())
     rs = ctx.fn(SM + r"SwapMarkets::<'a, 'info>::revertible_swap")
     if rs is not None:
-        for side, idx, val, cmap, cfilter in (("long", 0, "validated_primary_swap_path", "::{closure#1}", "::{closure#0}"), ("short", 1, "validated_secondary_swap_path", "::{closure#3}", "::{closure#2}")):
+        # every invocation of the per-side swap, inline or inside a closure created here, with its arguments expressed
+        # in terms of revertible_swap's own values (closure captures substituted)
+        sites = []
+        for c in rs.calls:
+            if c.short == "SwapMarkets::revertible_swap_for_one_side":
+                sites.append(([str(c.arg_expr(i)) for i in range(len(c.args))], str(c.arg_expr(5)), c.where()))
+        for g in prog.closures_of(rs):
+            inner = [c for c in g.calls if c.short == "SwapMarkets::revertible_swap_for_one_side"]
+            if not inner:
+                continue
+            suffix = g.id[len(rs.id):]
+            cap = {k: str(v) for k, v in (_captures(rs, suffix) or {}).items()}
+            # the closure's own parameter (the token) comes from the Option the closure is mapped over
+            users = [c for c in rs.calls if any(str(c.arg_expr(i)) == "closure<%s>" % g.id for i in range(1, len(c.args)))]
+            recv = " ".join(str(u.arg_expr(0)) for u in users)
+            for c in inner:
+                args = []
+                for i in range(len(c.args)):
+                    a_ = str(c.arg_expr(i))
+                    args.append(re.sub(r"\^(\w+)", lambda m: cap.get(m.group(1), "^" + m.group(1)), a_))
+                sites.append((args, recv, c.where()))
+        seen_sides = {}
+        for side, idx, val in (("long", 0, "validated_primary_swap_path"), ("short", 1, "validated_secondary_swap_path")):
+            PATH = "Result::map_err(SwapActionParams::%s(params), fn:From::from)?" % val
             vc = [c for c in rs.calls if c.short == "SwapActionParams::" + val]
-            cl = [g for g in prog.closures_of(rs) if g.id.endswith(cmap)]
-            cap = _captures(rs, cmap) or {}
-            ok = len(vc) == 1 and str(vc[0].arg_expr(0)) == "params" and len(cl) == 1
-            msg = ""
+            mine = [s_ for s_ in sites if len(s_[0]) == 7 and s_[0][3] == PATH]
+            ok = len(vc) == 1 and str(vc[0].arg_expr(0)) == "params" and H.ok_edge2(rs, vc[0]) is not None and len(mine) == 1
+            msg = "%d call(s) of %s, %d per-side swap(s) on its result" % (len(vc), val, len(mine))
             if ok:
-                PATH = "Result::map_err(SwapActionParams::%s(params), fn:From::from)?" % val
-                inner = [c for c in cl[0].calls if c.short == "SwapMarkets::revertible_swap_for_one_side"]
-                want_args = ["^self", "^direction", "^oracle", "^%s_path" % side, "^expected_token_outs__%d" % idx, "token_in", "^token_in_amounts__%d" % idx]
-                got = [str(inner[0].arg_expr(i)) for i in range(len(inner[0].args))] if len(inner) == 1 else []
-                capd = {k: str(v) for k, v in cap.items()}
-                a = got == want_args
-                b = capd.get("%s_path" % side) == PATH and capd.get("expected_token_outs__%d" % idx, capd.get("expected_token_outs")) in ("expected_token_outs.%d" % idx, "expected_token_outs") \
-                    and capd.get("token_in_amounts__%d" % idx, capd.get("token_in_amounts")) in ("token_in_amounts.%d" % idx, "token_in_amounts")
-                # the closure is mapped over token_ins.<idx>
-                maps = [c for c in rs.calls if c.short == "Option::map" and cmap[2:] in str(c.arg_expr(1))]
-                c_ = len(maps) == 1 and re.match(r"^Option::and_then\(token_ins\.%d, closure<.*%s>\)$" % (idx, re.escape(cfilter[2:])), str(maps[0].arg_expr(0))) is not None
-                ok = a and b and c_
-                msg = "closure args %s (%s); captures %s (%s); mapped over token_ins.%d (%s)" % (got, a, {k: H.sx(v, 70) for k, v in capd.items() if "path" in k or "expected" in k or "amounts" in k}, b, idx, c_)
+                args, tok, where = mine[0]
+                a = args[4] == "expected_token_outs.%d" % idx and args[6] == "token_in_amounts.%d" % idx
+                b = re.search(r"\btoken_ins\.%d\b" % idx, tok) is not None and re.search(r"\btoken_ins\.%d\b" % (1 - idx), tok) is None
+                ok = a and b
+                msg = "path = %s()?; expected_token_out = %s, amount = %s (%s); token from token_ins.%d only (%s)" % (val, args[4], args[6], a, idx, b)
             n += 1
             ctx.ob("validated-path:revertible_swap:" + side, ok, "revertible_swap %s side: %s" % (side, msg), where=rs.where())
+        stray = [s_[2] for s_ in sites if len(s_[0]) != 7 or not re.match(r"^Result::map_err\(SwapActionParams::validated_(primary|secondary)_swap_path\(params\), fn:From::from\)\?$", s_[0][3])]
+        ctx.ob("validated-path:revertible_swap:only-validated", not stray and len(sites) == 2,
+               "every per-side swap (%d) receives a path that is the `?` result of a validated_*_swap_path call; others: %s" % (len(sites), stray), where=rs.where())
+        n += 1
         others = [c.fn.short for g in (ctx.fn(US + "primary_swap_path"), ctx.fn(US + "secondary_swap_path")) if g is not None
                   for c in prog.callers_of(g.id) if c.fn.id.startswith(SM.replace("\\", ""))]
         ctx.ob("validated-path:no-unvalidated-use", not others, "swap_market.rs never reads the unvalidated slices directly: %s" % others, where=rs.where())
         n += 1
-    ctx.floor("validated-path", n, 6)
+    ctx.floor("validated-path", n, 7)
 
 
 def _creation(ctx, prog):
